@@ -274,13 +274,18 @@ def vocab(ctx, mi, T):
   # S3: one-sided special case
   rd = ctx.func('chord_symbols_lib:_add_scale_degree')
   rsp = reader_special(rd.node)
-  ctx.ob('SEVENTH/reader', rd, rd.node, rsp is not None, 'the reader lowers an added degree %s by %s' % (rsp[0], -rsp[1]) if rsp else 'the reader has no special case for an added seventh',
-         construct='reader: add on degree 7 is relative to the dominant seventh')
-  ok = (rsp is None and special is None) or (rsp is not None and special is not None and special[0] == rsp[0] and special[1] == -rsp[1])
-  ctx.ob('SEVENTH/writer-inverse', fi, fn, ok, 'the writer applies the inverse adjustment when formatting an added degree %s' % (rsp[0] if rsp else '-') if ok else
-         'the reader adjusts an added degree %s by %+d but the writer\'s add path %s: an added seventh does not survive the round trip' % (
-             rsp[0] if rsp else '?', rsp[1] if rsp else 0, 'adjusts by %+d on degree %s' % (special[1], special[0]) if special else 'has no corresponding adjustment'),
-         construct='writer: inverse of the reader\'s added-seventh adjustment')
+  if rsp is UNREADABLE:
+    why_ = 'cannot classify: how _add_scale_degree turns the written alteration of an added degree into the stored one is not read path-wise'
+    ctx.ob('SEVENTH/reader', rd, rd.node, False, why_, construct='reader: add on degree 7 is relative to the dominant seventh', unknown=why_)
+    ctx.ob('SEVENTH/writer-inverse', fi, fn, False, why_, construct='writer: inverse of the reader\'s added-seventh adjustment', unknown=why_)
+  else:
+    ctx.ob('SEVENTH/reader', rd, rd.node, rsp is not None, 'the reader lowers an added degree %s by %s' % (rsp[0], -rsp[1]) if rsp else 'the reader has no special case for an added seventh',
+           construct='reader: add on degree 7 is relative to the dominant seventh')
+    ok = (rsp is None and special is None) or (rsp is not None and special is not None and special[0] == rsp[0] and special[1] == -rsp[1])
+    ctx.ob('SEVENTH/writer-inverse', fi, fn, ok, 'the writer applies the inverse adjustment when formatting an added degree %s' % (rsp[0] if rsp else '-') if ok else
+           'the reader adjusts an added degree %s by %+d but the writer\'s add path %s: an added seventh does not survive the round trip' % (
+               rsp[0] if rsp else '?', rsp[1] if rsp else 0, 'adjusts by %+d on degree %s' % (special[1], special[0]) if special else 'has no corresponding adjustment'),
+           construct='writer: inverse of the reader\'s added-seventh adjustment')
   # removals are written with 'no'
   no = [f for f in fmts if f.left.value == '(no%d)']
   ctx.ob('VOCAB/removal', fi, no[0] if no else fn, len(no) == 1, 'removed degrees are written (no<n>)' if no else 'removed degrees are not written with the reader\'s "no" prefix')
@@ -512,24 +517,37 @@ def reader_special(fn):
   try:
     ps = pathval.paths(fn.body)
   except pathval.PathError:
-    return None
+    return UNREADABLE
   found = None
+  # the new alteration is stored into the degree table, or handed back to a caller that stores it
+  stored = any(loc in env for _c, env, _e in ps)
   for conds, env, ended in ps:
-    if ended != 'fall' or loc not in env:
-      continue
+    if stored:
+      if ended != 'fall' or loc not in env:
+        continue
+      new_value = env[loc]
+    else:
+      if ended != 'return' or pathval.RETURN not in env:
+        continue
+      new_value = env[pathval.RETURN]
+      if isinstance(new_value, ast.Constant) and new_value.value is None:
+        continue
     try:
-      d = (nf.rat(env[loc]) - nf.rat(U.E(a[2]))).const_value()
+      d = (nf.rat(new_value) - nf.rat(U.E(a[2]))).const_value()
     except nf.NFError:
-      return None
+      return UNREADABLE
     if d is None:
-      return None
+      return UNREADABLE
     eq = [U.const_value(t.comparators[0]) for t, pol in conds if pol and isinstance(t, ast.Compare) and len(t.ops) == 1 and isinstance(t.ops[0], ast.Eq) and
           norm_text(t.left) == a[1] and U.const_value(t.comparators[0]) is not None]
     if d != 0:
       if len(eq) != 1 or d.denominator != 1 or (found is not None and found != (eq[0], int(d))):
-        return None
+        return UNREADABLE
       found = (eq[0], int(d))
   return found
+
+
+UNREADABLE = ('?', 0)
 
 
 def seventh_special(fn):
